@@ -178,7 +178,8 @@ def make_pair(ka, kb, rng, prevB=None):
         A, B = PR.near_parallel_pair(ka, kb, rng)
         nearpar = True
     elif mode < 0.75 and prevB is not None and "M" in B.p:
-        B.p["c"], B.p["M"] = list(prevB.p["c"]), prevB.p["M"]        # the previous pose with other sizes
+        if int(B.p.get("N", 1)) == int(prevB.p.get("N", 1)):
+            B.p["c"], B.p["M"] = list(prevB.p["c"]), prevB.p["M"]    # the previous pose with other sizes
     return A, B, nearpar
 
 
@@ -227,6 +228,51 @@ def gen(tier, seed, prop):
                 rid = f"p{n}"
                 recs.append(one(rid, fname, A, B, lift, prop))
                 meta[rid] = {"fn": fname, "A": A.describe(), "B": B.describe(), "lift": [lift[0], lift[1].tolist(), lift[2].tolist()], "family": "parallel"}
+    # systematic family (independent of the seed): the lowest vertex of a tilted A (rational rotation) hovers one unit above the
+    # interior of a face of B, one unit inside the corner of that face, and A rises away from B - the closest feature of B is the
+    # interior of ONE face, every other face is farther (routines that scan faces / edges with early rejection)
+    frng = random.Random(4711)
+    rats = [r for r in S.RATIONAL if r[1] in (3, 5)]
+    for fname in ("rectangle_to_box", "rectangle_to_rectangle", "triangle_to_rectangle", "line_segment_to_box", "line_segment_to_rectangle"):
+        ka, kb = PR.kinds_of(fname)
+        for rep in range(12):
+            M, N = rats[rep % len(rats)]
+            Mf = np.array(M, dtype=float) / N
+            if ka == "rectangle":
+                A = PR.Prim("rectangle", c=[0, 0, 0], M=M, N=N, l=[2 * N * frng.randint(1, 2), 2 * N * frng.randint(1, 2)])
+            elif ka == "triangle":
+                k = 2 * frng.randint(1, 2)
+                A = PR.Prim("triangle", V=[[0, 0, 0], [int(x) for x in k * np.array(M)[:, 0]], [int(x) for x in k * np.array(M)[:, 1]]])
+            else:
+                k = 2 * frng.randint(1, 2)
+                A = PR.Prim("line_segment", a=[0, 0, 0], b=[int(x) for x in k * np.array(M)[:, 0]])
+            MB, _ = frng.choice(S.CUBE)
+            if kb == "box":
+                B = PR.Prim("box", c=[frng.randint(-2, 2) for _ in range(3)], M=MB, size=[2 * frng.randint(2, 4) for _ in range(3)])
+            else:
+                B = PR.Prim("rectangle", c=[frng.randint(-2, 2) for _ in range(3)], M=MB, l=[2 * frng.randint(2, 4), 2 * frng.randint(2, 4)])
+            VB = np.array(B.core(), dtype=float)
+            nrm = np.array(MB, dtype=float)[:, 2] * frng.choice((-1, 1))             # a face normal of B (for a rectangle: its plane normal)
+            top = float(np.max(VB @ nrm))
+            face = VB[np.abs(VB @ nrm - top) < 1e-9]
+            corner = face[frng.randrange(len(face))]
+            inward = (face.mean(axis=0) - corner)
+            inward = np.sign(np.round(inward, 9))                                      # one unit inside along both face axes
+            VA = np.array(A.core(), dtype=float)
+            low = VA[int(np.argmin(VA @ nrm))]
+            shift = (corner + inward + nrm) - low
+            shift = np.round(shift).astype(int)
+            for key in ("c", "a", "b"):
+                if key in A.p:
+                    A.p[key] = [int(x) for x in np.array(A.p[key]) + shift]
+            if "V" in A.p:
+                A.p["V"] = [[int(x) for x in np.array(v) + shift] for v in A.p["V"]]
+            for lk in ("id", "rigid1"):
+                lift = prim_lift(frng, A, B, lk)
+                n += 1
+                rid = f"p{n}"
+                recs.append(one(rid, fname, A, B, lift, prop))
+                meta[rid] = {"fn": fname, "A": A.describe(), "B": B.describe(), "lift": [lift[0], lift[1].tolist(), lift[2].tolist()], "family": "corner-over-face"}
     # pinned inputs of the known findings (deterministic, independent of the seed)
     import json, os
     pinned = [("disk_to_disk", PR.Prim("disk", c=[-5, -1, 0], r=3, n=[-1, 1, 1]), PR.Prim("disk", c=[-6, -1, 3], r=3, n=[1, -1, 0]), NW.IDENT)]
